@@ -86,6 +86,22 @@ func (e *Env) loadAt(addr string, t types.Type, hint string) Val {
 		if f := e.u.typingFactLim(v, lim); f != "true" {
 			*e.qfacts = append(*e.qfacts, f)
 		}
+	} else if e.qdepth == 0 && e.specSites == nil && e.st != nil && e.st.mem != nil && len(ls) > 0 && e.u != nil && e.u.ctx != nil {
+		// outside quantifiers: the instance of the heap typing axiom for this cell (allocated cells hold well-typed
+		// values), asserted as a fact. The solvers find such instances by e-matching only if the site's axiom has been
+		// emitted before; a site first mentioned by a specification (len(t.list) in an invariant checked before any
+		// instruction loaded it) has none.
+		lim := func(i int) string { return e.u.limitOf(e.st.mem, ls[i].Site) }
+		if f := e.u.typingFactLim(v, lim); f != "true" {
+			inst := implies(lt(add(addr, intLit(int64(ls[0].Off))), lim(0)), f)
+			if e.u.typingInst == nil {
+				e.u.typingInst = map[string]bool{}
+			}
+			if !e.u.typingInst[inst] && !strings.Contains(inst, "q!") {
+				e.u.typingInst[inst] = true
+				e.u.ctx.assert("typing-inst", inst)
+			}
+		}
 	}
 	return v
 }
